@@ -1,6 +1,7 @@
 package main
 
 import (
+	"go/token"
 	"go/types"
 	"sort"
 	"strings"
@@ -237,6 +238,13 @@ func locOfD(v ssa.Value, d int) string {
 	case *ssa.FreeVar:
 		return fnName(x.Parent().Parent()) + "." + x.Name()
 	}
+	if u, ok := v.(*ssa.UnOp); ok && u.Op == token.MUL {
+		switch u.X.(type) {
+		case *ssa.FieldAddr, *ssa.Global, *ssa.FreeVar:
+			// the pointee of a pointer-typed field / variable is named after the field
+			return locOfD(u.X, d+1)
+		}
+	}
 	if n, ok := namedNonInterface(v.Type()); ok {
 		return n
 	}
@@ -250,6 +258,20 @@ func locOfD(v ssa.Value, d int) string {
 	case *ssa.Slice:
 		return locOfD(x.X, d+1)
 	case *ssa.UnOp:
+		if a, ok := x.X.(*ssa.Alloc); ok && a.Referrers() != nil {
+			// a local variable holding a copy of a field / container: name what was stored
+			var st []ssa.Value
+			for _, r := range *a.Referrers() {
+				if s, ok := r.(*ssa.Store); ok && s.Addr == ssa.Value(a) {
+					st = append(st, s.Val)
+				}
+			}
+			if len(st) == 1 {
+				if _, isCall := st[0].(*ssa.Call); !isCall {
+					return locOfD(st[0], d+1)
+				}
+			}
+		}
 		return locOfD(x.X, d+1)
 	case *ssa.MakeInterface:
 		return locOfD(x.X, d+1)
